@@ -1146,12 +1146,9 @@ func (ctx *internalContext) Watch(options WatchOptions) error {
 func (ctx *internalContext) Cancel() {
 	ctx.mutex.Lock()
 
-	// Ignore disposed contexts
-	if ctx.didDispose {
-		ctx.mutex.Unlock()
-		return
-	}
-
+	// Note: A disposed context is not ignored here. "Dispose" does not start
+	// any new builds but a build may still be running while "Dispose" waits
+	// for it, and "Cancel" must not return before that build has ended.
 	build := ctx.activeBuild
 	ctx.mutex.Unlock()
 
